@@ -290,10 +290,15 @@ func c07EnumerateBig(thorough bool) []c07ID {
 	for _, n := range targets {
 		ids = append(ids, c07ID{Family: "limits", P: []int{1, n}}, c07ID{Family: "limits", P: []int{2, n}})
 	}
+	// function expressions with 0, 1 and 2 captured variables in turn, so that a CLOSURE whose
+	// prototype number lost bits names a prototype with a different capture list
+	for _, n := range []int{3, 255, 256, 257, 258, 511, 512, 513, 514, 515, 600, 1023, 1024, 1025, 1026, 1100} {
+		ids = append(ids, c07ID{Family: "limits", P: []int{4, n}})
+	}
 	return ids
 }
 
-var c07LimitKinds = []string{"labels", "global-targets-from-call", "local-names-from-vararg", "closures"}
+var c07LimitKinds = []string{"labels", "global-targets-from-call", "local-names-from-vararg", "closures", "closures-with-upvalues"}
 
 func c07MakeLimit(id c07ID, kind, n int) *c07Case {
 	if n < 1 || n > 300000 {
@@ -336,6 +341,29 @@ func c07MakeLimit(id c07ID, kind, n int) *c07Case {
 		}
 		sb.WriteString("local last=function() return 20 end\nreturn first()+last()\n")
 		want = 21
+	case "closures-with-upvalues":
+		sb.WriteString("local u1,u2=100000,7000000\nlocal fs={}\n")
+		for i := 1; i <= n; i++ {
+			switch i % 3 {
+			case 0:
+				fmt.Fprintf(&sb, "fs[%d]=function() return %d end\n", i, i)
+				want += float64(i)
+			case 1:
+				fmt.Fprintf(&sb, "fs[%d]=function() return %d+u1 end\n", i, i)
+				want += float64(i) + 100000
+			default:
+				fmt.Fprintf(&sb, "fs[%d]=function() u2=u2+1 return %d+u1+u2 end\n", i, i)
+			}
+		}
+		// the callers of the two-capture closures see u2 advance by one per call, in order
+		u2 := 7000000.0
+		for i := 1; i <= n; i++ {
+			if i%3 == 2 {
+				u2++
+				want += float64(i) + 100000 + u2
+			}
+		}
+		sb.WriteString("local s=0\nfor i=1,#fs do s=s+fs[i]() end\nreturn s\n")
 	default:
 		return nil
 	}
